@@ -77,10 +77,12 @@ type scheduler struct {
 	killed   bool
 	baton    chan struct{} // signalled to the path driver when everything is torn down
 	switches int
+	preemptBound int // -1: unbounded
+	preemptions  int
 }
 
 func newScheduler(i *interpreter) *scheduler {
-	s := &scheduler{i: i}
+	s := &scheduler{i: i, preemptBound: -1}
 	g := &goroutine{id: 0, state: gRunnable, resume: make(chan struct{}, 1), started: true}
 	g.vc = vclock{1}
 	s.gs = []*goroutine{g}
@@ -125,9 +127,19 @@ func (s *scheduler) yieldPoint(fr *frame, why string) {
 	if len(rs) <= 1 {
 		return
 	}
+	if s.preemptBound >= 0 && s.preemptions >= s.preemptBound {
+		return // preemption budget used up: keep running until blocked
+	}
+	// put the current goroutine first so that choice 0 means "no preemption"
+	for i, g := range rs {
+		if g == fr.g {
+			rs[0], rs[i] = rs[i], rs[0]
+		}
+	}
 	k := s.i.path.Choose(len(rs), "sched:"+why)
 	next := rs[k]
 	if next != fr.g {
+		s.preemptions++
 		s.switchTo(fr.g, next)
 	}
 }
@@ -575,6 +587,12 @@ func (s *scheduler) access(fr *frame, p *value, write bool, instr ssa.Instructio
 		s.cells[p] = cs
 	}
 	here := func() string {
+		if instr == nil {
+			if fr.fn != nil {
+				return fr.fn.String() + " (append/copy)"
+			}
+			return "(append/copy)"
+		}
 		return fr.fn.String() + loc(s.i.prog.Fset, instr.Pos())
 	}
 	if cs.hasW && cs.w.g != g.id && cs.w.clk > g.vc.get(cs.w.g) {
